@@ -52,6 +52,10 @@ class Interp:
     def derivative(self, xs, der=1):
         return self._eval(xs, der)
 
+    def deriv(self, m=1):
+        """numpy.poly1d API (scipy.interpolate.lagrange returns a poly1d): the m-th derivative as a callable of the same kind."""
+        return Interp(self.kind, self.x, self.y, self.kwargs, nu=self.nu + int(m), extrapolates=self.extrapolates)
+
 
 def make_scipy_stub(real_interpolate, created):
     """A stand-in for scipy.interpolate whose classes mirror the real constructors' signatures."""
